@@ -3,6 +3,7 @@
 package main
 
 import (
+	"encoding/hex"
 	"fmt"
 	"math/big"
 	"sort"
@@ -54,7 +55,22 @@ func tok(s string) []byte {
 	if s == "~" {
 		return []byte{}
 	}
+	if strings.HasPrefix(s, "%") { // %<hex> : arbitrary bytes (EVM storage slots are 32-byte hashes, not text)
+		if b, err := hex.DecodeString(s[1:]); err == nil {
+			return b
+		}
+	}
 	return []byte(s)
+}
+
+// showKey: the op-language spelling of a key (text as it is, anything else as %<hex>)
+func showKey(k []byte) string {
+	for _, c := range k {
+		if c < 0x21 || c > 0x7e || c == '%' {
+			return "%" + hex.EncodeToString(k)
+		}
+	}
+	return string(k)
 }
 
 func showVal(ok bool, v []byte) string {
